@@ -158,6 +158,8 @@ impl Monitor for C18 {
                     sel.projs.push((a, Some(format!("a{}", i))));
                 }
                 if rng.chance(1, 2) { sel.having = Some(bin("AND", bin(">", E::Agg("count".into(), false, vec![E::Star]), int(0)), bin("!=", k1, text("g0")))); }
+                // several hidden aggregates in HAVING: which value belongs to which must not depend on a map's iteration order
+                else if rng.chance(1, 2) { sel.having = Some(bin("AND", bin(">=", E::Agg("count".into(), false, vec![E::Star]), int(2)), bin("OR", bin("<", E::Agg("sum".into(), false, vec![col(*rng.pick(&ints))]), int(60)), bin(">", E::Agg("max".into(), false, vec![col(*rng.pick(&ints))]), int(25))))); }
             }
             3 => {
                 let (mut uspec, uschema) = wide_table("u", 6);
